@@ -828,3 +828,1043 @@ class MECall(MEContract):
 
 
 MEContract.me_methods = {m: f"{ME}.{m}" for m in ("init_segment", "init_non_segment", "move_right", "move_left", "move_to")}
+
+
+# ======================================================================================================
+# DMRG: bond schedule, sweep order, gauge discipline (open boundary)
+# ======================================================================================================
+
+DMRGC = f"{DM}::DMRG"
+KS = z3.Int("k!sweepno")  # skolem sweep number (schedule position)
+SV = z3.Int("s!step")  # bound variable: step number of the visit log
+
+
+def forall_steps(body):
+    return z3.ForAll([SV], body)
+
+
+class SeqV:
+    """a python sequence of symbolic length n >= 0 with items arr[0..n)"""
+
+    def __init__(self, n, arr):
+        self.n, self.arr = n, arr
+
+    def at(self, k):
+        return z3.Select(self.arr, k)
+
+
+class RepeatV:
+    def __init__(self, x):
+        self.x = x
+
+
+class ListV:
+    """a python list whose content is not interpreted (energies, ...)"""
+
+
+class SweepSeqV:
+    """a non-empty string over {'L', 'R'} (sweep_sequence)"""
+
+
+class DirIter:
+    """itertools.cycle(sweep_sequence): every item is 'L' or 'R'"""
+
+
+class MaybeUnbound:
+    """a local variable that is bound only if the loop body ran at least once"""
+
+    def __init__(self, value, nbound):
+        self.value, self.nbound = value, nbound  # nbound: name of the ghost iteration counter that must be >= 1
+
+
+class CompResult:
+    """the list built by a comprehension that was cut by an invariant: its length, and the last element"""
+
+    def __init__(self, n, last):
+        self.n, self.last = n, last
+
+
+class ProjV:
+    """zip(*comprehension)[j]"""
+
+    def __init__(self, comp, j):
+        self.comp, self.j = comp, j
+
+
+class SplitFactor:
+    """one factor of T_AB.split(left_inds, right_inds, absorb, max_bond=..., cutoff=...)"""
+
+    def __init__(self, side, absorb, mb, conj=False):
+        self.side, self.absorb, self.mb, self.conj = side, absorb, mb, conj
+
+
+class TAB:
+    pass
+
+
+class BraSite:
+    def __init__(self, bra, i):
+        self.bra, self.i = bra, i
+
+
+OPT_KEYS = ("default_sweep_sequence", "bond_compress_method", "bond_compress_cutoff_mode", "bond_expand_rand_strength",
+            "local_eig_tol", "local_eig_ncv", "local_eig_backend", "local_eig_maxiter", "local_eig_EPSType",
+            "local_eig_ham_dense", "local_eig_norm_dense", "periodic_segment_size", "periodic_compress_method",
+            "periodic_compress_norm_eps", "periodic_compress_ham_eps", "periodic_compress_max_bond",
+            "periodic_nullspace_fudge_factor", "periodic_canonize_inv_tol", "periodic_orthog_tol")
+
+
+def new_iter(cx, item, k=0, name="it"):
+    """an iterator heap object: ``item`` maps the (0-based) number of the next() call to the value it returns"""
+    return cx.new_obj("Iter", item=item, k=k, name=name)
+
+
+def new_dmrg(cx, bsz, with_me=None, L=None):
+    """a DMRG solver object on an open chain; with_me: None | 'left' | 'right' (a ready MovingEnvironment begun there)"""
+    L = L if L is not None else cx.Int("L")
+    mps = cx.new_obj("MPS", L=L, cyclic=False, isL=cx.Array("isL", IntS, BoolS), isR=cx.Array("isR", IntS, BoolS),
+                     capd=cx.Array("capd", IntS, BoolS))
+    bra = cx.new_obj("BRA", of=mps)
+    tn = cx.new_obj("TN", L=L, site_tag_id=cx.Opaque("site_tag_id"))
+    opts = {k: cx.Opaque(k) for k in OPT_KEYS}
+    opts["default_sweep_sequence"] = SweepSeqV()
+    bd_arr, co_arr = cx.Array("sched_bd", IntS, IntS), cx.Array("sched_co", IntS, z3.RealSort())
+    fields = dict(L=L, bsz=bsz, cyclic=False, which=cx.Opaque("which"), _k=mps, _b=bra, TN_energy=tn, opts=opts,
+                  energies=ListV(), local_energies=ListV(), total_energies=ListV(), phys_dim=cx.Opaque("phys_dim"),
+                  _bond_dims=new_iter(cx, lambda k, a=bd_arr: z3.Select(a, k), cx.Int("bd_k"), "bond_dims"),
+                  _cutoffs=new_iter(cx, lambda k, a=co_arr: z3.Select(a, k), cx.Int("co_k"), "cutoffs"),
+                  g_vis=cx.Array("g_vis", IntS, IntS), g_nvis=0, g_M=cx.Int("g_M"), g_nsweeps=0,
+                  g_last=(cx.Opaque("loc_en"), cx.Opaque("tot_en")))
+    ref = cx.new_obj("DMRG", **fields)
+    cx.ghost["self"] = ref
+    cx.assume(And(L >= bsz, fields["_bond_dims"] is not None))
+    for it in ("_bond_dims", "_cutoffs"):
+        cx.assume(cx.fields(fields[it])["k"] >= 0)
+    if with_me:
+        me = new_me(cx, "ready", begin=with_me, L=L, bsz=bsz, name="ham")
+        cx.fields(me)["envs_set"] = True
+        cx.fields(ref)["ME_eff_ham"] = me
+    return ref
+
+
+def gauge_at(m, i, bsz):
+    """the gauge precondition of a local update at position i: sites < i left-, sites >= i+bsz right-isometric"""
+    return And(forall_sites(Implies(And(0 <= K, K < i), sel(m["isL"], K))),
+               forall_sites(Implies(And(i + bsz <= K, K < m["L"]), sel(m["isR"], K))))
+
+
+def gauge_unchanged_where(m, p, cond):
+    return forall_sites(Implies(cond(K), And(sel(m["isL"], K) == sel(p["isL"], K), sel(m["isR"], K) == sel(p["isR"], K))))
+
+
+def capd_unchanged_except(m, p, k0=None):
+    if k0 is None:
+        return forall_sites(sel(m["capd"], K) == sel(p["capd"], K))
+    return forall_sites(Implies(K != k0, sel(m["capd"], K) == sel(p["capd"], K)))
+
+
+MPS_METHODS = ("left_canonize_site", "right_canonize_site", "left_canonize", "right_canonize", "left_canonicalize",
+               "right_canonicalize", "expand_bond_dimension")
+DMRG_METHODS = {
+    "_update_local_state_1site": f"{DM}::DMRG1._update_local_state_1site",
+    "_update_local_state_2site": f"{DM}::DMRG2._update_local_state_2site",
+    "_update_local_state": f"{DMRGC}._update_local_state",
+    "_canonize_after_1site_update": f"{DMRGC}._canonize_after_1site_update",
+    "_set_bond_dim_seq": f"{DMRGC}._set_bond_dim_seq",
+    "_set_cutoff_seq": f"{DMRGC}._set_cutoff_seq",
+    "sweep": f"{DMRGC}.sweep", "sweep_right": f"{DMRGC}.sweep_right", "sweep_left": f"{DMRGC}.sweep_left",
+}
+DMRG_LEAVES = ("form_local_ops", "_eigs", "post_check", "_print_pre_sweep", "_compute_post_sweep", "_check_convergence",
+               "_print_post_sweep", "print_energy_info", "print_norm_info")
+
+
+class DContract(MEContract, c08.MPSContract):
+    """shared modelling of the DMRG solver object"""
+
+    property_ids = ("C10",)
+    ghost_fields = ()
+
+    def havoc_heap(self, cx):
+        MEContract.havoc_heap(self, cx)
+        for oid, f in cx.heap.items():
+            if "isL" in f:
+                f["isL"], f["isR"] = cx.Array("isL_hv", IntS, BoolS), cx.Array("isR_hv", IntS, BoolS)
+                if "capd" in f:
+                    f["capd"] = cx.Array("capd_hv", IntS, BoolS)
+            if "g_vis" in f:
+                f["g_vis"], f["g_nvis"] = cx.Array("g_vis_hv", IntS, IntS), cx.Int("g_nvis_hv")
+                f["g_last"] = (cx.Opaque("loc_en_hv"), cx.Opaque("tot_en_hv"))
+                if getattr(self, "havoc_sweep_ghosts", False):  # (only the loop of solve changes them)
+                    f["g_nsweeps"], f["g_M"] = cx.Int("g_nsweeps_hv"), cx.Int("g_M_hv")
+            if "item" in f and "k" in f:
+                f["k"] = cx.Int("it_k_hv")
+
+    def attr(self, cx, base, attr, node):
+        if isinstance(base, Ref) and base.kind == "DMRG":
+            if attr in DMRG_METHODS or attr in DMRG_LEAVES:
+                return BoundMethod(base, attr)
+            if attr == "_eff_ham":
+                return cx.Opaque("eff_ham")  # [leaf] set by form_local_ops: the effective energy network of the position
+            if attr == "ME_eff_ham":
+                raise PyRaise("AttributeError", getattr(node, "lineno", 0))
+        if isinstance(base, Ref) and base.kind == "MPS" and attr in MPS_METHODS:
+            return BoundMethod(base, attr)
+        if isinstance(base, (c08.Site, BraSite)) and attr in ("inds", "shape", "data"):
+            return cx.Opaque(attr)
+        r = MEContract.attr(self, cx, base, attr, node)
+        if r is not NotImplemented:
+            return r
+        return c08.MPSContract.attr(self, cx, base, attr, node)
+
+    def dmrg(self, cx):
+        return cx.ghost["self"]
+
+    def call(self, cx, name, args, kwargs, node):
+        line = getattr(node, "lineno", 0)
+        if name == "__tuple__":
+            if any(isinstance(v, Opaque) for _, v in args[0]):
+                return cx.Opaque("inds")
+        if name == "__isinstance__":
+            v, cname = args
+            if cname == "int":
+                return is_int(v)
+            if cname == "float":
+                return (is_z3(v) and z3.is_real(v)) or isinstance(v, float)
+            if cname in ("Integral", "numbers.Integral"):
+                return is_int(v)
+            raise Unsupported(f"isinstance(..., {cname})")
+        if name == "__getitem__" and isinstance(args[0], Ref) and args[0].kind == "BRA":
+            bra, i = args
+            L = cx.fields(cx.fields(bra)["of"])["L"]
+            cx.oblige(f"site-exists@{line}", "safety", And(0 <= i, i < L), line)
+            return BraSite(bra, i)
+        if name == "__getitem__" and isinstance(args[0], SeqV):
+            s, idx = args
+            if isinstance(idx, int) and idx < 0:
+                idx = s.n + idx
+            cx.oblige(f"index@{line}: item of the schedule sequence exists (IndexError on an empty sequence)", "index",
+                      And(0 <= idx, idx < s.n), line)
+            return s.at(idx)
+        if name == "__getitem__" and isinstance(args[0], ProjV):
+            pv, idx = args
+            cx.oblige(f"index@{line}: at least one local update was performed", "index", pv.comp.n >= 1, line)
+            if idx == -1:
+                return pv.comp.last[pv.j]
+            return cx.Opaque("some_energy")
+        if name == "__len__" and isinstance(args[0], ListV):
+            n = cx.Int("len")
+            cx.assume(n >= 0)
+            return n
+        if name == ".append" and isinstance(args[0], ListV):
+            return None
+        if name == "tuple" and len(args) == 1:
+            if isinstance(args[0], SeqV):
+                return args[0]
+            if is_z3(args[0]):
+                raise PyRaise("TypeError", line)  # tuple(number): 'int' / 'float' object is not iterable
+        if name == "itertools.repeat" and len(args) == 1:
+            return RepeatV(args[0])
+        if name == "itertools.chain" and len(args) == 2 and isinstance(args[1], RepeatV):
+            first, rep = args
+            # [leaf] itertools.chain(seq, itertools.repeat(x)): item k is seq[k] for k < len(seq), x afterwards
+            if isinstance(first, tuple):
+                item = lambda k, t=first, x=rep.x: self.tuple_item(t, k, x)  # noqa: E731
+            elif isinstance(first, SeqV):
+                item = lambda k, s=first, x=rep.x: If(k < s.n, s.at(k), x)  # noqa: E731
+            else:
+                raise Unsupported("chain of a non-sequence")
+            return new_iter(cx, item, 0, "chain")
+        if name == "itertools.cycle" and len(args) == 1:
+            oblige_structural(cx, f"cycle@{line}: the sweep sequence is a string over L / R", "call-arg",
+                              isinstance(args[0], SweepSeqV), line)
+            return DirIter()
+        if name == "next" and len(args) == 1:
+            it = args[0]
+            if isinstance(it, DirIter):
+                d = cx.Int("dir")
+                cx.assume(Or(d == 0, d == 1))
+                return "R" if cx.decide(d == 0, line) else "L"
+            if isinstance(it, Ref) and it.kind == "Iter":
+                f = cx.fields(it)
+                v = f["item"](Z(f["k"]))
+                f["k"] = f["k"] + 1
+                return v
+            raise Unsupported("next() of an unknown iterator")
+        if name in ("warnings.catch_warnings", "warnings.simplefilter"):
+            return None
+        if name == "zip" and len(args) == 1 and isinstance(args[0], StarArg) and isinstance(args[0].value, CompResult):
+            comp = args[0].value
+            cx.oblige(f"zip@{line}: the sweep performed at least one local update (else nothing to unpack)", "index",
+                      comp.n >= 1, line)
+            return (ProjV(comp, 0), ProjV(comp, 1))
+        if name == "MovingEnvironment":
+            return cx.call_contract(REGISTRY[MEInit.target], list(args), kwargs, node, recv=cx.new_obj("ME-raw"))
+        if name == "parse_2site_inds_dims":
+            # [leaf here; label contract in contracts/c09_labels.py] nine label / shape values of sites i, i+1
+            k, b, i = args
+            d = self.dmrg(cx)
+            f = cx.fields(d)
+            oblige_structural(cx, f"call-arg@{line}:parse_2site_inds_dims: (ket, bra, i) of the solver", "call-arg",
+                              k == f["_k"] and b == f["_b"], line)
+            cx.ghost["two_site_i"] = i
+            return tuple(cx.Opaque(n) for n in ("dims", "lix_L", "lix_R", "lix", "uix_L", "uix_R", "uix", "l_bond", "u_bond"))
+        if name == "Tensor" and len(args) == 2:
+            return TAB()
+        if name in (".toarray", ".reshape", ".item", ".ravel", ".conj") and isinstance(args[0], Opaque):
+            return cx.Opaque(name[1:])
+        if name == ".conj" and isinstance(args[0], SplitFactor):
+            s = args[0]
+            return SplitFactor(s.side, s.absorb, s.mb, conj=not s.conj)
+        if name == ".contract" and isinstance(args[0], c08.Site):
+            return cx.Opaque("two_site")
+        if name == ".to_dense" and isinstance(args[0], Opaque):
+            return cx.Opaque("dense")
+        if name == "__binop__" and args[0] == "BitXor" and isinstance(args[1], Opaque) and args[2] is ALL:
+            return cx.Opaque("tot_en")
+        if name == ".split" and isinstance(args[0], TAB):
+            return self.leaf_split(cx, kwargs, node)
+        if name == ".modify" and isinstance(args[0], (c08.Site, BraSite)):
+            return self.leaf_modify(cx, args[0], kwargs, node)
+        fv = None
+        if isinstance(node, ast.Call) and isinstance(node.func, ast.Subscript):
+            fv = cx.ev(node.func)
+        elif name.startswith(".") and isinstance(args[0], Ref) and args[0].kind in ("DMRG", "MPS") and isinstance(node, ast.Call):
+            m = name[1:]
+            if (args[0].kind == "DMRG" and (m in DMRG_METHODS or m in DMRG_LEAVES)) or \
+                    (args[0].kind == "MPS" and m in MPS_METHODS):
+                fv, args = BoundMethod(args[0], m), args[1:]
+        if isinstance(fv, BoundMethod) and isinstance(fv.recv, Ref) and fv.recv.kind == "DMRG":
+            return self.call_dmrg(cx, fv, list(args), kwargs, node)
+        if isinstance(fv, BoundMethod) and isinstance(fv.recv, Ref) and fv.recv.kind == "MPS":
+            return self.call_mps(cx, fv, list(args), kwargs, node)
+        if isinstance(fv, BoundMethod):
+            return self.call_bound(cx, fv, args, kwargs, node)
+        r = MEContract.call(self, cx, name, args, kwargs, node)
+        if r is not NotImplemented:
+            return r
+        return c08.MPSContract.call(self, cx, name, args, kwargs, node)
+
+    @staticmethod
+    def tuple_item(t, k, x):
+        r = x
+        for j in range(len(t) - 1, -1, -1):
+            r = If(k == j, t[j], r)
+        return r
+
+    # ---- method calls on the ket: the proved C08 contracts, with ``bra=self._b`` kept in step [trusted]
+    def call_mps(self, cx, bm, args, kwargs, node):
+        line = node.lineno
+        mps, m = bm.recv, bm.name
+        d = self.dmrg(cx)
+        f = cx.fields(d)
+        kwargs = dict(kwargs)
+        oblige_structural(cx, f"call-arg@{line}:{m}: acts on the solver's ket with bra=self._b (the bra stays the conjugate "
+                          "of the ket)", "call-arg", mps == f["_k"] and kwargs.get("bra") == f["_b"], line)
+        kwargs.pop("bra", None)
+        if m == "expand_bond_dimension":
+            # [leaf] pads the bonds up to the requested size with noise of relative size rand_strength: isometries are
+            # preserved (exactly when no bond grows or rand_strength = 0; up to rand_strength otherwise) -- ASSUMPTION
+            cx.events.append(("expand", args[0] if args else kwargs.get("new_bond_dim")))
+            return None
+        return c08.MPSContract.call(self, cx, "." + m, [mps] + args, kwargs, node)
+
+    def call_dmrg(self, cx, bm, args, kwargs, node):
+        line = node.lineno
+        d, m = bm.recv, bm.name
+        if m in DMRG_METHODS and DMRG_METHODS[m] in REGISTRY:
+            return cx.call_contract(REGISTRY[DMRG_METHODS[m]], args, kwargs, node, recv=d)
+        f = cx.fields(d)
+        if m == "form_local_ops":
+            # [leaf; label contract in contracts/c09_labels.py] builds Heff / Neff from ME_eff_ham() at its current position
+            me = f.get("ME_eff_ham")
+            ok = isinstance(me, Ref)
+            oblige_structural(cx, f"call-pre@{line}:form_local_ops: the moving environment exists", "call-pre", ok, line)
+            if ok:
+                mf = cx.fields(me)
+                cx.oblige(f"call-pre@{line}:form_local_ops: the moving environment stands at the position of the update", "call-pre",
+                          mf["pos"] == args[0], line)
+            cx.ghost["formed_at"] = args[0]
+            return (cx.Opaque("Heff"), cx.Opaque("Neff"))
+        if m == "_eigs":
+            # [leaf] one local eigenproblem.  Standard (Neff = identity) iff the gauge precondition holds; the unit-norm
+            # eigenvector then gives a normalised state
+            i = cx.ghost.get("formed_at")
+            oblige_structural(cx, f"call-pre@{line}:_eigs: local operators were formed first", "call-pre", i is not None, line)
+            if i is None:
+                raise Unsupported("_eigs before form_local_ops")
+            mk = cx.fields(f["_k"])
+            cx.oblige(f"gauge@{line}:_eigs: sites < i left-isometric and sites >= i+bsz right-isometric (standard eigenproblem, "
+                      "normalised state)", "call-pre", gauge_at(mk, i, f["bsz"]), line)
+            f["g_vis"] = z3.Store(f["g_vis"], f["g_nvis"], i)
+            f["g_nvis"] = f["g_nvis"] + 1
+            cx.events.append(("eigs", i))
+            return (cx.Opaque("loc_en"), cx.Opaque("loc_gs"))
+        if m == "post_check":
+            return (cx.Opaque("loc_en"), cx.Opaque("loc_gs"))
+        if m == "_check_convergence":
+            return cx.Bool("converged")
+        if m in DMRG_LEAVES:
+            return None
+        raise Unsupported(f"DMRG method {m}")
+
+    def leaf_split(self, cx, kwargs, node):
+        """[leaf, C05] T_AB.split(left_inds, right_inds, get='arrays', absorb, **opts) -> (L, R): absorb='right' leaves L a
+        left isometry, absorb='left' leaves R a right isometry; the new bond is <= max_bond"""
+        line = node.lineno
+        absorb = kwargs.get("absorb")
+        oblige_structural(cx, f"split@{line}: get='arrays' and absorb is a direction", "call-arg",
+                          kwargs.get("get") == "arrays" and absorb in ("left", "right"), line)
+        cx.events.append(("split", dict(kwargs)))
+        mb = kwargs.get("max_bond", None)
+        return (SplitFactor("L", absorb, mb), SplitFactor("R", absorb, mb))
+
+    def leaf_modify(self, cx, site, kwargs, node):
+        line = node.lineno
+        data = kwargs.get("data")
+        if isinstance(site, BraSite):
+            cx.events.append(("modify-bra", site.i, data))
+            return None
+        m = cx.fields(site.mps)
+        i = site.i
+        cx.events.append(("modify-ket", i, data))
+        if isinstance(data, SplitFactor) and not data.conj:
+            isl = True if (data.side == "L" and data.absorb == "right") else cx.Bool("hv")
+            isr = True if (data.side == "R" and data.absorb == "left") else cx.Bool("hv")
+            m["isL"], m["isR"] = z3.Store(m["isL"], i, isl), z3.Store(m["isR"], i, isr)
+            w = cx.ghost.setdefault("fac_written", {})
+            w[data.side] = i
+            if "L" in w and "R" in w and "capd" in m:
+                # both factors of one split are in place: bond (s, s+1) is the new bond, of size <= max_bond
+                g_M = cx.fields(self.dmrg(cx))["g_M"]
+                capped = And(w["R"] == w["L"] + 1, data.mb == g_M) if is_int(data.mb) else cx.Bool("hv")
+                m["capd"] = z3.Store(m["capd"], w["L"], capped)
+        else:
+            # an arbitrary new tensor (the local eigenvector): no isometry claim
+            m["isL"], m["isR"] = z3.Store(m["isL"], i, cx.Bool("hv")), z3.Store(m["isR"], i, cx.Bool("hv"))
+        return None
+
+
+# ---- bond / cutoff schedule ------------------------------------------------------------------------------
+
+
+class SetSeq(DContract):
+    """_set_bond_dim_seq / _set_cutoff_seq: the schedule iterator returns, at its k-th next() (k = 0, 1, ...), the item
+    bds[min(k, len(bds)-1)] (a scalar is the one-element schedule)"""
+
+    floor = 3
+    field = None  # heap field holding the iterator
+    param = None
+    scalar = None  # "int" | "float": the scalar kind the code tests for
+    first_field = None
+
+    def cases(self):
+        # "other-number": a python int where the code tests isinstance(..., float) (cutoffs=0); for bond_dims the documented
+        # domain is int | sequence of ints (a float bond dimension is not an input of the property)
+        kinds = ("scalar", "sequence", "other-number") if self.scalar == "float" else ("scalar", "sequence")
+        return [NS(name=f"{self.param}={k}", kind=k) for k in kinds]
+
+    def mk_value(self, cx, case):
+        real = self.scalar == "float"
+        if case.kind == "scalar":
+            return cx.Real("x") if real else cx.Int("x")
+        if case.kind == "other-number":
+            return cx.Int("x") if real else cx.Real("x")  # a python number of the other kind (cutoffs=0, bond_dims=8.0)
+        n = cx.Int("n")
+        cx.assume(n >= 1)
+        return SeqV(n, cx.Array("seq", IntS, z3.RealSort() if real else IntS))
+
+    def inputs(self, cx, case):
+        ref = new_dmrg(cx, 2)
+        return {"self": ref, self.param: self.mk_value(cx, case)}
+
+    @staticmethod
+    def spec_item(v, k):
+        """item k of the schedule built from v"""
+        if isinstance(v, SeqV):
+            return v.at(If(k < v.n - 1, k, v.n - 1))
+        return v
+
+    def ensures(self, a, r, cx, case):
+        f = cx.fields(a.self)
+        v = a[self.param]
+        it = f.get(self.field)
+        d = {"returns-None": r is None, "iterator-installed": isinstance(it, Ref) and it.kind == "Iter"}
+        if not d["iterator-installed"]:
+            return d
+        fi = cx.fields(it)
+        d["iterator-fresh (next call is number 0)"] = Z(fi["k"]) == 0
+        d["k-th sweep receives bds[min(k, len-1)]"] = Implies(KS >= 0, fi["item"](KS) == self.spec_item(v, KS))
+        if self.first_field:
+            d["first-item-recorded"] = f.get(self.first_field) is not None and \
+                Z(f[self.first_field]) == Z(self.spec_item(v, z3.IntVal(0)))
+        return d
+
+    def apply(self, cx, a, node, case=None):
+        v = a[self.param]
+        line = node.lineno
+        real = self.scalar == "float"
+        ok = isinstance(v, SeqV) or (is_z3(v) and (z3.is_real(v) if real else z3.is_int(v))) or \
+            (isinstance(v, float) if real else (isinstance(v, int) and not isinstance(v, bool)))
+        oblige_structural(cx, f"call-pre@{line}:{self.target.split('.')[-1]}: a {self.scalar} or a non-empty sequence", "call-pre",
+                          ok, line)
+        if isinstance(v, SeqV):
+            cx.oblige(f"call-pre@{line}:{self.target.split('.')[-1]}: non-empty schedule", "call-pre", v.n >= 1, line)
+        f = cx.fields(a.self)
+        f[self.field] = new_iter(cx, lambda k, v=v: self.spec_item(v, k), 0, self.field)
+        if self.first_field:
+            f[self.first_field] = self.spec_item(v, z3.IntVal(0))
+        return None
+
+    def replay(self, model):
+        return _replay_schedule_kind(self.param)
+
+
+def _replay_schedule_kind(param):
+    import warnings
+
+    import quimb.tensor as qtn
+
+    warnings.simplefilter("ignore")
+    H = qtn.MPO_ham_heis(4)
+    out = {}
+    for label, kw in (("cutoffs=0", dict(bond_dims=8, cutoffs=0)), ("cutoffs=0.0", dict(bond_dims=8, cutoffs=0.0)),
+                      ("bond_dims=8.0", dict(bond_dims=8.0)), ("bond_dims=8", dict(bond_dims=8))):
+        if not label.startswith(param):
+            continue
+        try:
+            qtn.DMRG2(H, **kw)
+            out[label] = "constructed"
+        except Exception as e:  # noqa
+            out[label] = f"{type(e).__name__}: {e}"
+    return dict(call=f"DMRG2(MPO_ham_heis(4), ...) with a python number of the other kind for {param}", observed=out,
+                reproduced=any(v.startswith("TypeError") for v in out.values()))
+
+
+@register
+class SetBondDimSeq(SetSeq):
+    target = f"{DMRGC}._set_bond_dim_seq"
+    field, param, scalar, first_field = "_bond_dims", "bond_dims", "int", "_bond_dim0"
+
+
+@register
+class SetCutoffSeq(SetSeq):
+    target = f"{DMRGC}._set_cutoff_seq"
+    field, param, scalar, first_field = "_cutoffs", "cutoffs", "float", None
+
+
+# ---- local updates: gauge effect, visit log, cap threading ----------------------------------------------
+
+
+def update_reqs(cx, a, bsz, need_me=True):
+    """heap preconditions of a local update at position i (assumed for the bodies, asserted at call sites)"""
+    f = cx.fields(a.self)
+    m = cx.fields(f["_k"])
+    d = {"0 <= i <= L-bsz": And(0 <= a.i, a.i <= f["L"] - bsz),
+         "gauge: sites < i left-isometric, sites >= i+bsz right-isometric": gauge_at(m, a.i, bsz)}
+    if need_me:
+        me = f.get("ME_eff_ham")
+        d["moving environment stands at i"] = cx.fields(me)["pos"] == a.i if isinstance(me, Ref) else False
+    return d
+
+
+def visited(f, p, i):
+    return And(f["g_nvis"] == p["g_nvis"] + 1, f["g_vis"] == z3.Store(p["g_vis"], p["g_nvis"], i))
+
+
+@register
+class CanonizeAfter1Site(DContract):
+    """_canonize_after_1site_update(direction, i): moves the centre one site in the sweep direction, except at the end"""
+
+    target = f"{DMRGC}._canonize_after_1site_update"
+    floor = 6
+
+    def cases(self):
+        return [NS(name=f"direction={d}", direction=d) for d in ("right", "left", "other")]
+
+    def inputs(self, cx, case):
+        ref = new_dmrg(cx, 1)
+        i = cx.Int("i")
+        cx.assume(And(0 <= i, i < cx.fields(ref)["L"]))
+        return dict(self=ref, direction=case.direction, i=i)
+
+    def ensures(self, a, r, cx, case):
+        f = cx.fields(a.self)
+        m, p = cx.fields(f["_k"]), cx.pre(f["_k"])
+        L, i = f["L"], a.i
+        d = {"returns-None": r is None, "bond-caps-untouched": capd_unchanged_except(m, p)}
+        if a.direction == "right":
+            d["site-i-left-isometric-unless-last"] = Implies(i < L - 1, sel(m["isL"], i))
+            d["frame"] = gauge_unchanged_where(m, p, lambda k: Or(i >= L - 1, And(k != i, k != i + 1)))
+        elif a.direction == "left":
+            d["site-i-right-isometric-unless-first"] = Implies(i > 0, sel(m["isR"], i))
+            d["frame"] = gauge_unchanged_where(m, p, lambda k: Or(i <= 0, And(k != i, k != i - 1)))
+        else:
+            d["frame"] = gauge_unchanged_where(m, p, lambda k: True)
+        return d
+
+    def modifies(self, a, case):
+        return [(a.self_k, ["isL", "isR"])]
+
+    def fresh_result(self, cx, a, case):
+        return None
+
+    def case_of_call(self, cx, a):
+        return NS(name="call", direction=a.direction)
+
+    def apply(self, cx, a, node, case=None):
+        f = cx.fields(a.self)
+        a.__dict__["self_k"] = f["_k"]
+        cx.oblige(f"call-pre@{node.lineno}:_canonize_after_1site_update: 0 <= i < L", "call-pre", And(0 <= a.i, a.i < f["L"]),
+                  node.lineno)
+        return super().apply(cx, a, node, case)
+
+
+class UpdateLocal(DContract):
+    bsz = None
+
+    def cases(self):
+        return [NS(name=f"direction={d},opts={o}", direction=d, opts=o) for d in ("right", "left") for o in ("given", "none")]
+
+    def mk_opts(self, cx, case):
+        if case.opts == "none":
+            return {}
+        return {"max_bond": cx.Int("max_bond"), "cutoff": cx.Real("cutoff"), "cutoff_mode": cx.Opaque("cutoff_mode"),
+                "method": cx.Opaque("method")}
+
+    def inputs(self, cx, case):
+        ref = new_dmrg(cx, self.bsz, with_me="left" if case.direction == "right" else "right")
+        a = NS(dict(self=ref, i=cx.Int("i"), direction=case.direction, compress_opts=self.mk_opts(cx, case)))
+        for c in update_reqs(cx, a, self.bsz).values():
+            cx.assume(c)
+        return a
+
+    def case_of_call(self, cx, a):
+        return NS(name="call", direction=a.direction, opts="given" if a.compress_opts else "none")
+
+    def modifies(self, a, case):
+        return [(a.self_k, ["isL", "isR", "capd"]), (a.self, ["g_vis", "g_nvis", "g_last"])]
+
+    def fresh_result(self, cx, a, case):
+        r = (cx.Opaque("loc_en"), cx.Opaque("tot_en"))
+        cx.fields(a.self)["g_last"] = r
+        return r
+
+    def apply(self, cx, a, node, case=None):
+        f = cx.fields(a.self)
+        a.__dict__["self_k"] = f["_k"]
+        nm = self.target.split(".")[-1]
+        oblige_structural(cx, f"call-pre@{node.lineno}:{nm}: direction is 'right' or 'left'", "call-pre",
+                          a.direction in ("right", "left"), node.lineno)
+        for lab, c in update_reqs(cx, a, self.bsz).items():
+            cx.oblige(f"call-pre@{node.lineno}:{nm}:{lab}", "call-pre", c, node.lineno)
+        return super().apply(cx, a, node, case)
+
+    def common_post(self, a, r, cx):
+        f, p = cx.fields(a.self), cx.pre(a.self)
+        eigs = [e for e in cx.events if e[0] == "eigs"]
+        d = {"returns-(local energy, total energy)": isinstance(r, tuple) and len(r) == 2,
+             "one-local-update-logged-at-position-i": visited(f, p, a.i)}
+        if cx.contract is self:
+            d["exactly-one-local-eigenproblem"] = len(eigs) == 1
+        return d
+
+
+@register
+class Update1Site(UpdateLocal):
+    """(mpsghost) one-site update at i: the gauge precondition holds where the eigenproblem is solved; afterwards the centre
+    has moved one site in the sweep direction (site i is left- / right-isometric) unless i is the last site of the sweep"""
+
+    target = f"{DM}::DMRG1._update_local_state_1site"
+    bsz = 1
+    floor = 12
+
+    def ensures(self, a, r, cx, case):
+        f = cx.fields(a.self)
+        m, p = cx.fields(f["_k"]), cx.pre(f["_k"])
+        L, i = f["L"], a.i
+        d = self.common_post(a, r, cx)
+        d["bond-caps-untouched"] = capd_unchanged_except(m, p)
+        if a.direction == "right":
+            d["site-i-left-isometric-unless-last"] = Implies(i < L - 1, sel(m["isL"], i))
+            d["frame"] = gauge_unchanged_where(m, p, lambda k: And(k != i, Or(i >= L - 1, k != i + 1)))
+        else:
+            d["site-i-right-isometric-unless-first"] = Implies(i > 0, sel(m["isR"], i))
+            d["frame"] = gauge_unchanged_where(m, p, lambda k: And(k != i, Or(i <= 0, k != i - 1)))
+        return d
+
+
+@register
+class Update2Site(UpdateLocal):
+    """(mpsghost) two-site update at (i, i+1): gauge precondition at the eigenproblem; the split absorbs in the sweep
+    direction and receives the caller's max_bond / cutoff options unchanged; afterwards site i is left-isometric (right
+    sweep) / site i+1 right-isometric (left sweep), bond (i, i+1) <= max_bond, nothing else touched"""
+
+    target = f"{DM}::DMRG2._update_local_state_2site"
+    bsz = 2
+    floor = 14
+
+    def ensures(self, a, r, cx, case):
+        f = cx.fields(a.self)
+        m, p = cx.fields(f["_k"]), cx.pre(f["_k"])
+        i = a.i
+        d = self.common_post(a, r, cx)
+        if a.direction == "right":
+            d["site-i-left-isometric (split absorbs right)"] = sel(m["isL"], i)
+        else:
+            d["site-i+1-right-isometric (split absorbs left)"] = sel(m["isR"], i + 1)
+        d["frame: only sites i, i+1 touched"] = gauge_unchanged_where(m, p, lambda k: And(k != i, k != i + 1))
+        d["frame: only bond (i,i+1) resized"] = capd_unchanged_except(m, p, i)
+        mb = a.compress_opts.get("max_bond")
+        if is_int(mb):
+            d["bond-(i,i+1)-capped-by-the-caller's-max_bond"] = sel(m["capd"], i) == (mb == f["g_M"])
+        if cx.contract is self:
+            splits = [e for e in cx.events if e[0] == "split"]
+            d["exactly-one-split"] = len(splits) == 1
+            if len(splits) == 1:
+                kw = splits[0][1]
+                d["split-absorbs-in-the-sweep-direction"] = kw.get("absorb") == a.direction
+                for key in ("max_bond", "cutoff", "cutoff_mode", "method"):
+                    want = a.compress_opts.get(key, "<absent>")
+                    got = kw.get(key, "<absent>")
+                    d[f"split-receives-the-caller's-{key}-unchanged"] = (got is want) if not (is_z3(got) and is_z3(want)) \
+                        else got == want
+            mods = [e for e in cx.events if e[0] == "modify-ket"]
+            d["ket-sites-i-and-i+1-each-written-once"] = len(mods) == 2
+        return d
+
+
+@register
+class UpdateLocalState(DContract):
+    """_update_local_state(i, **opts): moves the environment to i (forward in the sweep direction), dispatches on bsz and
+    hands every option on unchanged"""
+
+    target = f"{DMRGC}._update_local_state"
+    floor = 20
+
+    def cases(self):
+        return [NS(name=f"bsz={b},direction={d},opts={o}", bsz=b, direction=d, opts=o)
+                for b in (1, 2) for d in ("right", "left") for o in ("given", "none")]
+
+    def inputs(self, cx, case):
+        begin = "left" if case.direction == "right" else "right"
+        ref = new_dmrg(cx, case.bsz, with_me=begin)
+        opts = {"direction": case.direction}
+        opts.update(UpdateLocal.mk_opts(self, cx, case))
+        a = NS(dict(self=ref, i=cx.Int("i"), update_opts=opts))
+        for c in self.reqs(cx, a).values():
+            cx.assume(c)
+        return a
+
+    def reqs(self, cx, a):
+        f = cx.fields(a.self)
+        me = f.get("ME_eff_ham")
+        if not isinstance(me, Ref):
+            return {"moving environment exists": False}
+        mf = cx.fields(me)
+        bsz = f["bsz"]
+        begin = mf["begin"]
+        d = dict(update_reqs(cx, a, bsz, need_me=False))
+        d["environment begun on the side the sweep starts from"] = \
+            begin == {"right": "left", "left": "right"}.get(a.update_opts.get("direction"))
+        d["environment matches the solver (L, bsz)"] = And(mf["L"] == f["L"], mf["bsz"] == bsz)
+        d["target position not behind the environment"] = MoveTo.pre(mf, a.i, begin)
+        for lab, c in me_inv(mf, begin).items():
+            d["environment class-invariant:" + lab] = c
+        return d
+
+    def case_of_call(self, cx, a):
+        return NS(name="call", bsz=cx.fields(a.self)["bsz"], direction=a.update_opts.get("direction"),
+                  opts="given" if len(a.update_opts) > 1 else "none")
+
+    def modifies(self, a, case):
+        me = a.self_me
+        return [(a.self_k, ["isL", "isR", "capd"]), (a.self, ["g_vis", "g_nvis", "g_last"]),
+                (me, ["pos", "e_has"] + ["e_" + c for c in ENV_COMPONENTS])]
+
+    def fresh_result(self, cx, a, case):
+        r = (cx.Opaque("loc_en"), cx.Opaque("tot_en"))
+        cx.fields(a.self)["g_last"] = r
+        return r
+
+    def apply(self, cx, a, node, case=None):
+        f = cx.fields(a.self)
+        a.__dict__["self_k"] = f["_k"]
+        a.__dict__["self_me"] = f.get("ME_eff_ham")
+        oblige_structural(cx, f"call-pre@{node.lineno}:_update_local_state: direction='right'|'left' is passed", "call-pre",
+                          a.update_opts.get("direction") in ("right", "left"), node.lineno)
+        for lab, c in self.reqs(cx, a).items():
+            if isinstance(c, bool):
+                oblige_structural(cx, f"call-pre@{node.lineno}:_update_local_state:{lab}", "call-pre", c, node.lineno)
+            else:
+                cx.oblige(f"call-pre@{node.lineno}:_update_local_state:{lab}", "call-pre", c, node.lineno)
+        return super().apply(cx, a, node, case)
+
+    def ensures(self, a, r, cx, case):
+        f, p = cx.fields(a.self), cx.pre(a.self)
+        m, pm = cx.fields(f["_k"]), cx.pre(f["_k"])
+        me = f["ME_eff_ham"]
+        mf = cx.fields(me)
+        L, i, bsz = f["L"], a.i, case.bsz
+        direction = a.update_opts.get("direction")
+        d = {"returns-(local energy, total energy)": isinstance(r, tuple) and len(r) == 2,
+             "one-local-update-logged-at-position-i": visited(f, p, i),
+             "environment-moved-to-i": mf["pos"] == i}
+        d.update({"environment class-invariant:" + lab: c for lab, c in me_inv(mf, mf["begin"]).items()})
+        if bsz == 2:
+            if direction == "right":
+                d["site-i-left-isometric"] = sel(m["isL"], i)
+            else:
+                d["site-i+1-right-isometric"] = sel(m["isR"], i + 1)
+            d["frame: only sites i, i+1 touched"] = gauge_unchanged_where(m, pm, lambda k: And(k != i, k != i + 1))
+            d["frame: only bond (i,i+1) resized"] = capd_unchanged_except(m, pm, i)
+            mb = a.update_opts.get("max_bond")
+            if is_int(mb):
+                d["bond-(i,i+1)-capped-by-the-caller's-max_bond"] = sel(m["capd"], i) == (mb == f["g_M"])
+        else:
+            d["bond-caps-untouched"] = capd_unchanged_except(m, pm)
+            if direction == "right":
+                d["site-i-left-isometric-unless-last"] = Implies(i < L - 1, sel(m["isL"], i))
+                d["frame"] = gauge_unchanged_where(m, pm, lambda k: And(k != i, Or(i >= L - 1, k != i + 1)))
+            else:
+                d["site-i-right-isometric-unless-first"] = Implies(i > 0, sel(m["isR"], i))
+                d["frame"] = gauge_unchanged_where(m, pm, lambda k: And(k != i, Or(i <= 0, k != i - 1)))
+        return d
+
+
+# ---- the sweep ---------------------------------------------------------------------------------------------
+
+
+def sweep_pre_gauge(m, direction, bsz):
+    """what a sweep that does not canonize first relies on: R: sites >= bsz right-isometric; L: sites < L-bsz left-"""
+    if direction == "R":
+        return forall_sites(Implies(And(bsz <= K, K < m["L"]), sel(m["isR"], K)))
+    return forall_sites(Implies(And(0 <= K, K < m["L"] - bsz), sel(m["isL"], K)))
+
+
+def sweep_post_gauge(m, direction):
+    """'after the sweep the state is left or right canonized respectively'"""
+    if direction == "R":
+        return forall_sites(Implies(And(0 <= K, K < m["L"] - 1), sel(m["isL"], K)))
+    return forall_sites(Implies(And(0 < K, K < m["L"]), sel(m["isR"], K)))
+
+
+def visit_pos(direction, L, bsz, s):
+    """position of the s-th local update of a sweep"""
+    return s if direction == "R" else L - bsz - s
+
+
+@register
+class Sweep(DContract):
+    """DMRG.sweep(direction, canonize, **update_opts) on an open chain:
+    * the local updates visit exactly the positions 0, 1, ..., L-bsz in this order (direction 'R') / L-bsz, ..., 0 ('L');
+    * at every update at position i the sites < i are left- and the sites >= i+bsz right-isometric (call-pre of
+      _update_local_state, from the invariant of the comprehension) -- needs canonize=True or the stated entry gauge;
+    * the moving environment is begun on the side the sweep starts from and only ever moved forward;
+    * every update receives the caller's options unchanged; for bsz = 2 every bond ends up <= max_bond;
+    * afterwards the state is left- ('R') / right- ('L') canonical; the returned value is the total energy computed at the
+      last position."""
+
+    target = f"{DMRGC}.sweep"
+    floor = 60
+
+    def cases(self):
+        return [NS(name=f"bsz={b},direction={d},canonize={c},opts={o}", bsz=b, direction=d, canonize=c, opts=o)
+                for b in (1, 2) for d in ("R", "L") for c in (True, False) for o in ("given", "none")]
+
+    def inputs(self, cx, case):
+        ref = new_dmrg(cx, case.bsz)
+        f = cx.fields(ref)
+        opts = UpdateLocal.mk_opts(self, cx, case)
+        if "max_bond" in opts:
+            f["g_M"] = opts["max_bond"]  # ghost: the cap requested for this sweep
+        a = NS(dict(self=ref, direction=case.direction, canonize=case.canonize, verbosity=0, update_opts=opts))
+        for c in self.reqs(cx, a).values():
+            cx.assume(c)
+        return a
+
+    def reqs(self, cx, a):
+        f = cx.fields(a.self)
+        m = cx.fields(f["_k"])
+        d = {"L >= bsz": f["L"] >= f["bsz"]}
+        if not a.canonize:
+            d["gauge on entry (canonize=False): state canonical towards the side the sweep starts from"] = \
+                sweep_pre_gauge(m, a.direction, f["bsz"])
+        return d
+
+    # ---- the comprehension [self._update_local_state(i, ...) for i in sweep], cut by an invariant
+    def comp_inv(self, cx, a, i, t):
+        f = cx.fields(a.self)
+        m = cx.fields(f["_k"])
+        L, bsz = f["L"], f["bsz"]
+        direction = a.direction
+        me = f.get("ME_eff_ham")
+        d = {"environment-created": isinstance(me, Ref)}
+        if not d["environment-created"]:
+            return d
+        mf = cx.fields(me)
+        begin = "left" if direction == "R" else "right"
+        d["t-range"] = And(0 <= t, t <= L - bsz + 1)
+        d["next-position"] = i == visit_pos(direction, L, bsz, t)
+        # (the last site of the sweep is never canonized: K < L-1 / K > 0; both are implied for a position i <= L-bsz)
+        d["gauge: sites < i left-isometric, sites >= i+bsz right-isometric"] = And(
+            forall_sites(Implies(And(0 <= K, K < i, K < L - 1), sel(m["isL"], K))),
+            forall_sites(Implies(And(i + bsz <= K, K < L, K > 0), sel(m["isR"], K))))
+        d["visit-log: t updates so far, the s-th at the s-th position of the sweep order"] = And(
+            f["g_nvis"] == t, forall_steps(Implies(And(0 <= SV, SV < t), sel(f["g_vis"], SV) == visit_pos(direction, L, bsz, SV))))
+        d["environment: begun at the start side, matches the solver"] = And(mf["begin"] == begin, mf["L"] == L, mf["bsz"] == bsz)
+        d["environment: stands at the last updated position"] = mf["pos"] == If(t == 0, visit_pos(direction, L, bsz, 0),
+                                                                                 visit_pos(direction, L, bsz, t - 1))
+        d.update({"environment class-invariant:" + lab: c for lab, c in me_inv(mf, begin).items()})
+        if bsz == 2 and "max_bond" in a.update_opts:
+            done = And(0 <= K, K < i) if direction == "R" else And(i < K, K <= L - 2)
+            d["bonds-swept-so-far <= max_bond"] = forall_sites(Implies(done, sel(m["capd"], K)))
+        return d
+
+    def comp_loop(self, cx, n):
+        a = cx.old
+        g = n.generators[0]
+        line = n.lineno
+        it = cx.ev(g.iter)
+        if len(n.generators) != 1 or g.ifs or not (isinstance(it, tuple) and it and it[0] == "range") or \
+                not isinstance(g.target, ast.Name):
+            raise Unsupported("comprehension shape")
+        ra = it[1:]
+        start, stop, step = (0, ra[0], 1) if len(ra) == 1 else ((ra[0], ra[1], 1) if len(ra) == 2 else ra)
+        if not isinstance(step, int) or step == 0:
+            raise Unsupported("comprehension over a range with a symbolic step")
+        saved_env = dict(cx.env)
+        var = g.target.id
+
+        def check(stage, i, t):
+            cx.inv_mode = "check"
+            for lab, c in self.comp_inv(cx, a, i, t).items():
+                if isinstance(c, bool):
+                    oblige_structural(cx, f"inv-{stage}@comp:{lab}", "inv-" + stage, c, line)
+                else:
+                    cx.oblige(f"inv-{stage}@comp:{lab}", "inv-" + stage, c, line)
+
+        check("init", I(start), 0)
+        # arbitrary iteration: the comprehension assigns no local but its own variable; the heap is havoc'd
+        cx.havoc_heap()
+        t = cx.Int("_itc")
+        cx.assume(t >= 0)
+        i = z3.simplify(I(start) + t * step)
+        cx.inv_mode = "assume"
+        for c in self.comp_inv(cx, a, i, t).values():
+            cx.assume(c)
+        enter = num_cmp("<", i, stop) if step > 0 else num_cmp(">", i, stop)
+        if cx.decide(enter, line):
+            cx.env[var] = i
+            val = cx.ev(n.elt)
+            cx.fields(a.self)["g_last"] = val if isinstance(val, tuple) and len(val) == 2 else (cx.Opaque("x"), cx.Opaque("y"))
+            check("step", z3.simplify(I(start) + (t + 1) * step), t + 1)
+            raise PathEnd("comprehension body end")
+        cx.env = saved_env
+        return CompResult(t, cx.fields(a.self)["g_last"])
+
+    def call(self, cx, name, args, kwargs, node):
+        if name == "__genexp__" and isinstance(args[0], ast.ListComp):
+            return self.comp_loop(cx, args[0])
+        return super().call(cx, name, args, kwargs, node)
+
+    def ensures(self, a, r, cx, case):
+        f, p = cx.fields(a.self), cx.pre(a.self)
+        m = cx.fields(f["_k"])
+        L, bsz = f["L"], f["bsz"]
+        me = f.get("ME_eff_ham")
+        d = {"moving-environment-stored": isinstance(me, Ref)}
+        if not d["moving-environment-stored"]:
+            return d
+        n = L - bsz + 1
+        d["visits: exactly L-bsz+1 local updates"] = f["g_nvis"] == p["g_nvis"] + n
+        d["visits: positions 0..L-bsz in order (reversed for 'L')"] = forall_steps(Implies(
+            And(0 <= SV, SV < n), sel(f["g_vis"], p["g_nvis"] + SV) == visit_pos(a.direction, L, bsz, SV)))
+        d["gauge after the sweep: left-canonical ('R') / right-canonical ('L')"] = sweep_post_gauge(m, a.direction)
+        d["returns the total energy computed at the last position"] = \
+            isinstance(r, Opaque) and isinstance(f["g_last"], tuple) and r is f["g_last"][1]
+        if bsz == 2 and "max_bond" in a.update_opts:
+            d["every bond <= max_bond after the sweep (bsz = 2)"] = Implies(
+                a.update_opts["max_bond"] == f["g_M"], forall_sites(Implies(And(0 <= K, K < L - 1), sel(m["capd"], K))))
+        d["environment-left-at-the-last-position"] = cx.fields(me)["pos"] == visit_pos(a.direction, L, bsz, n - 1)
+        return d
+
+    def case_of_call(self, cx, a):
+        return NS(name="call", bsz=cx.fields(a.self)["bsz"], direction=a.direction, canonize=a.canonize,
+                  opts="given" if a.update_opts else "none")
+
+    def apply(self, cx, a, node, case=None):
+        line = node.lineno
+        f = cx.fields(a.self)
+        ok = a.direction in ("R", "L") and isinstance(a.canonize, bool) and a.verbosity == 0
+        oblige_structural(cx, f"call-pre@{line}:sweep: direction 'R'|'L', boolean canonize, verbosity 0", "call-pre", ok, line)
+        if not ok:
+            raise Unsupported("sweep call shape")
+        for lab, c in self.reqs(cx, a).items():
+            cx.oblige(f"call-pre@{line}:sweep:{lab}", "call-pre", c, line)
+        L, bsz = f["L"], f["bsz"]
+        m = cx.fields(f["_k"])
+        nv0 = f["g_nvis"]
+        # ---- abstract effect (what `ensures` states, proved for the body)
+        m["isL"], m["isR"] = cx.Array("isL_sw", IntS, BoolS), cx.Array("isR_sw", IntS, BoolS)
+        cx.assume(sweep_post_gauge(m, a.direction))
+        m["capd"] = cx.Array("capd_sw", IntS, BoolS)
+        if "max_bond" in a.update_opts:
+            f["g_M"] = a.update_opts["max_bond"]
+            if bsz == 2:
+                cx.assume(forall_sites(Implies(And(0 <= K, K < L - 1), sel(m["capd"], K))))
+        vis = cx.Array("g_vis_sw", IntS, IntS)
+        n = L - bsz + 1
+        cx.assume(forall_steps(Implies(And(0 <= SV, SV < n), sel(vis, nv0 + SV) == visit_pos(a.direction, L, bsz, SV))))
+        f["g_vis"], f["g_nvis"] = vis, nv0 + n
+        f["g_last"] = (cx.Opaque("loc_en_sw"), cx.Opaque("tot_en_sw"))
+        f["g_nsweeps"] = f["g_nsweeps"] + 1
+        me = new_me(cx, "ready", begin="left" if a.direction == "R" else "right", L=L, bsz=bsz, name="sw")
+        cx.fields(me)["envs_set"] = True
+        f["ME_eff_ham"] = me
+        cx.events.append(("sweep", a.direction, a.canonize, dict(a.update_opts)))
+        return f["g_last"][1]
+
+
+class SweepDir(DContract):
+    direction = None
+    floor = 4
+
+    def cases(self):
+        return [NS(name=f"bsz={b},canonize={c},opts={o}", bsz=b, canonize=c, opts=o)
+                for b in (1, 2) for c in (True, False) for o in ("given", "none")]
+
+    def inputs(self, cx, case):
+        ref = new_dmrg(cx, case.bsz)
+        opts = UpdateLocal.mk_opts(self, cx, case)
+        a = NS(dict(self=ref, canonize=case.canonize, verbosity=0, update_opts=opts))
+        sw = REGISTRY[Sweep.target]
+        for c in sw.reqs(cx, NS(dict(self=ref, direction=self.direction, canonize=case.canonize))).values():
+            cx.assume(c)
+        return a
+
+    def ensures(self, a, r, cx, case):
+        f = cx.fields(a.self)
+        m = cx.fields(f["_k"])
+        sweeps = [e for e in cx.events if e[0] == "sweep"]
+        d = {"exactly-one-sweep": len(sweeps) == 1}
+        if len(sweeps) != 1:
+            return d
+        _, direction, canonize, opts = sweeps[0]
+        d["sweeps-in-the-named-direction"] = direction == self.direction
+        d["canonize-flag-handed-on"] = canonize is a.canonize
+        d["update-options-handed-on-unchanged"] = set(opts) == set(a.update_opts) and all(opts[k] is a.update_opts[k] for k in opts)
+        d["returns-the-sweep's-energy"] = r is f["g_last"][1]
+        d["gauge after the sweep"] = sweep_post_gauge(m, self.direction)
+        return d
+
+
+@register
+class SweepRight(SweepDir):
+    target = f"{DMRGC}.sweep_right"
+    direction = "R"
+
+
+@register
+class SweepLeft(SweepDir):
+    target = f"{DMRGC}.sweep_left"
+    direction = "L"
